@@ -1,5 +1,6 @@
 #!/usr/bin/env python3
-"""Static audit of process-wide mutable state in a FRAME tree (used by C20; informative, never a verdict).
+"""Static audit of process-wide mutable state in a FRAME tree (used by C20: it steers the generator towards the
+operations of a file that gained such state and is recorded in the evidence; it is never a verdict).
 
 Lists, for every .py file under frame/ and tools/ of the given repository:
   module   NAME   module-level binding to a mutable value (dict/list/set literal or comprehension, or a call)
@@ -9,7 +10,7 @@ Lists, for every .py file under frame/ and tools/ of the given repository:
   global   f:NAME a `global` (or `nonlocal`) statement: the function rebinds module state
   classattr-write C.NAME  an assignment `ClassName.attr = ...` / `cls.attr = ...` inside a function
 
-usage: stateaudit.py [repo] [--json]
+usage: python3 -m harness.props.c20_audit [repo] [--json]
 """
 import ast
 import json
@@ -35,6 +36,8 @@ def mutable(node):
     """a value whose later in-place change would be seen by every later user"""
     if isinstance(node, (ast.Dict, ast.List, ast.Set, ast.ListComp, ast.DictComp, ast.SetComp)):
         return type(node).__name__.lower()
+    if isinstance(node, ast.IfExp):
+        return mutable(node.body) or mutable(node.orelse)
     if isinstance(node, ast.Call):
         n = call_name(node)
         if n in IMMUTABLE_CALLS or n in TYPING_NAMES:
